@@ -138,7 +138,7 @@ def resolved(sig, iid):
     rows = []
     for oc, mode, ic, idx in sig["isigs"][si:si + sc]:
         rows.append((oc, mode, ic, tuple(sig["osigs"][k] for k in idx[:oc])))
-    return (iflags, avx, tuple(rows), iid in sig["pairk"])
+    return (iflags, avx, tuple(rows), dict(sig["enc"]).get(iid, 0))
 
 
 def render_buckets(sig, id2name, allow_lines, exclude_lines):
@@ -164,7 +164,7 @@ def render_buckets(sig, id2name, allow_lines, exclude_lines):
                 rowsets[rws] = "rows%d" % len(rowsets)
                 s += "def %s : List (Nat × Nat × Nat × List (Nat × Nat)) := [%s]\n" % (rowsets[rws], ", ".join(
                     "(%d, %d, %d, [%s])" % (oc, m, ic, ", ".join("(0x%x, 0x%x)" % o for o in refs)) for oc, m, ic, refs in rws))
-            body += "  (%d, { iflags := 0x%x, avx := 0x%x, rows := %s, pairK := %s }),\n" % (iid, iflags, avx, rowsets[rws], "true" if pk else "false")
+            body += "  (%d, { iflags := 0x%x, avx := 0x%x, rows := %s, enc := %d }),\n" % (iid, iflags, avx, rowsets[rws], pk)
         s += "\ndef insts : List (Nat × ResolvedInst) := [\n%s]\n\n" % body.rstrip(",\n")
         v, n = pack(rows)
         s += "def rows : Nat × Nat := (0x%x, %d)\ndef rowCount : Nat := %d\n\n" % (v, n, len(rows))
